@@ -17,6 +17,9 @@ C20_TableAccept == J => ((R.op = "isnr" /\ ~Sup(R)) => ~R.refused)
 \* "a handler's attempt to set a response through the response writer is refused exactly when ..."
 C20_SetRefused  == J => ((R.op = "setresp" /\ R.has /\ Sup(R)) => (R.refused /\ ~R.changed))
 C20_SetAccepted == J => ((R.op = "setresp" /\ (~R.has \/ ~Sup(R))) => (~R.refused /\ R.codeAfter = R.code))
+\* ... also when the handler has already touched the response: prepared it through Message() (first = 0) or set an accepted response
+\* before: a refused attempt leaves what was there, an accepted one replaces it
+C20_SetAgain == J => (R.op = "setagain" => (R.refused = Sup(R) /\ R.codeAfter = (IF Sup(R) THEN R.first ELSE R.code)))
 \* wire level: "a suppressed response is never put on the wire (a confirmable request still gets its
 \* bare acknowledgement) and a response of a class that was not suppressed is never dropped"
 C20_NotOnWire   == J => ((R.op = "wire" /\ Sup(R)) => (R.responses = 0 /\ (R.con => R.acks = 1)))
